@@ -11,7 +11,7 @@ for s in $SEEDS; do
   git -C /repo worktree add -q $wt HEAD || continue
   if ! git -C $wt apply /verif/seeded/$s/patch.diff; then echo "$s: PATCH DOES NOT APPLY" | tee -a $OUT/summary.txt; git -C /repo worktree remove --force $wt; continue; fi
   t0=$(date +%s)
-  EUDOXIA_REPO=$wt ${SEED_ENV:-} ./vcheck $prop quick > $OUT/$s.log 2>&1; rc=$?
+  VERIF_EVIDENCE_DIR=$OUT/evidence EUDOXIA_REPO=$wt ${SEED_ENV:-} ./vcheck $prop quick > $OUT/$s.log 2>&1; rc=$?
   t1=$(date +%s)
   v=$(grep -c "^VIOLATION" $OUT/$s.log)
   first=$(grep -m1 "violation detail" $OUT/$s.log | cut -c1-200)
